@@ -14,8 +14,8 @@ use std::sync::atomic::{AtomicI32, AtomicUsize, Ordering};
 /// catchable numbers used by the histories (all can be raised once taken over)
 pub const POOL: [c_int; 20] = [
     libc::SIGHUP, libc::SIGINT, libc::SIGQUIT, libc::SIGUSR1, libc::SIGUSR2, libc::SIGPIPE, libc::SIGALRM, libc::SIGTERM,
-    libc::SIGCHLD, libc::SIGCONT, libc::SIGURG, libc::SIGXCPU, libc::SIGWINCH, libc::SIGIO, libc::SIGSYS, libc::SIGTRAP,
-    34, 35, 50, 64,
+    libc::SIGCHLD, libc::SIGCONT, libc::SIGURG, libc::SIGXCPU, libc::SIGWINCH, libc::SIGIO, libc::SIGSYS, libc::SIGTTIN,
+    34, libc::SIGTSTP, libc::SIGTTOU, 64,
 ];
 
 #[derive(Clone, Debug, Serialize, Deserialize, PartialEq)]
@@ -24,6 +24,22 @@ pub enum Op {
     Unregister { k: u16 },
     UnregisterSignal { sig: u8 },
     Deliver { sig: u8 },
+    /// `low_level::emulate_default_handler` on a signal the library has taken over and whose
+    /// default action leaves the process alive (ignore: nothing; stop: the process stops and a
+    /// helper process continues it). The registry - and the library's handler with its flags -
+    /// must be exactly as before.
+    Emulate { sig: u8 },
+}
+
+/// default action of the pool's signals that does not end the process: 1 ignore, 2 stop
+fn survivable_default(s: c_int) -> u8 {
+    if [libc::SIGCHLD, libc::SIGCONT, libc::SIGURG, libc::SIGWINCH].contains(&s) {
+        1
+    } else if [libc::SIGTSTP, libc::SIGTTIN, libc::SIGTTOU].contains(&s) {
+        2
+    } else {
+        0
+    }
 }
 
 #[derive(Clone, Debug, Serialize, Deserialize)]
@@ -65,6 +81,7 @@ pub fn strategy(maxlen: usize) -> BoxedStrategy<C05Case> {
         5 => (0u16..400).prop_map(|k| Op::Unregister { k }),
         1 => (0u8..20).prop_map(|sig| Op::UnregisterSignal { sig }),
         5 => (0u8..20).prop_map(|sig| Op::Deliver { sig }),
+        1 => (0u8..20).prop_map(|sig| Op::Emulate { sig }),
     ];
     (
         prop_oneof![2 => 1u8..4, 1 => 4u8..21],
@@ -78,7 +95,7 @@ pub fn strategy(maxlen: usize) -> BoxedStrategy<C05Case> {
             }
             for o in ops.iter_mut() {
                 match o {
-                    Op::Register { sig, .. } | Op::UnregisterSignal { sig } | Op::Deliver { sig } => *sig %= nsig,
+                    Op::Register { sig, .. } | Op::UnregisterSignal { sig } | Op::Deliver { sig } | Op::Emulate { sig } => *sig %= nsig,
                     _ => {}
                 }
             }
@@ -164,6 +181,40 @@ fn child(case: &C05Case, fd: i32) {
                     rec["ran"] = json!(ran);
                 } else {
                     rec["ran"] = json!("skipped");
+                }
+            }
+            Op::Emulate { sig } => {
+                let s = POOL[*sig as usize % 20];
+                let kind = survivable_default(s);
+                if taken.contains(&s) && kind != 0 {
+                    let mut helper = -1;
+                    if kind == 2 {
+                        // someone has to continue us: a helper process that sends one SIGCONT as
+                        // soon as it sees this process stopped, then exits
+                        let me = unsafe { libc::getpid() };
+                        helper = unsafe { libc::fork() };
+                        if helper == 0 {
+                            for _ in 0..4000 {
+                                let st = std::fs::read_to_string(format!("/proc/{}/stat", me)).unwrap_or_default();
+                                let state = st.rsplit(')').next().and_then(|r| r.split_whitespace().next()).unwrap_or("").to_string();
+                                if state == "T" {
+                                    unsafe { libc::kill(me, libc::SIGCONT) };
+                                    unsafe { libc::_exit(0) };
+                                }
+                                unsafe { libc::usleep(500) };
+                            }
+                            unsafe { libc::_exit(1) };
+                        }
+                    }
+                    let r = signal_hook::low_level::emulate_default_handler(s);
+                    rec["ret"] = json!(if r.is_ok() { "ok".to_string() } else { format!("err:{:?}", r.err().and_then(|e| e.raw_os_error())) });
+                    if helper > 0 {
+                        let mut st = 0;
+                        unsafe { libc::waitpid(helper, &mut st, 0) };
+                        rec["stopped_and_continued"] = json!(libc::WIFEXITED(st) && libc::WEXITSTATUS(st) == 0);
+                    }
+                } else {
+                    rec["ret"] = json!("skipped");
                 }
             }
         }
@@ -324,6 +375,17 @@ pub fn run_case(case: &C05Case) -> CaseReport {
                 }
                 if removed_any {
                     deliver_after_removal = true;
+                }
+            }
+            Op::Emulate { sig } => {
+                if r["ret"] != "skipped" {
+                    rep.class("default-emulated-on-taken-over-signal");
+                    if r["ret"] != "ok" {
+                        rep.viol("C05/emulate", format!("step {}: emulate_default_handler({}) on a taken-over signal returned {}", i, POOL[*sig as usize % 20], r["ret"]));
+                    }
+                    if r.get("stopped_and_continued").is_some() {
+                        rep.class("stopped-and-continued");
+                    }
                 }
             }
         }
